@@ -43,6 +43,7 @@ func main() {
 		extraInits = flag.String("init", "", "additional packages whose init() is executed")
 		params     = paramFlag{}
 		cpuprof    = flag.String("cpuprofile", "", "write a CPU profile")
+		fallback   = flag.Int("fallback", 120000, "one-shot solver budget (ms) for queries the incremental solver leaves undecided (0 = off)")
 		gcpct      = flag.Int("gcpercent", 100, "GOGC value")
 	)
 	flag.Var(params, "param", "harness parameter name=value (repeatable)")
@@ -148,7 +149,7 @@ func main() {
 		cfg := &sym.Config{
 			MaxSteps: *maxSteps, MaxDecisions: *maxDec, MaxPaths: *maxPaths, MaxViol: *maxViol,
 			Workers: *workers, SolverPath: *solver, TimeoutMs: *timeout, Trace: *trace, Verbose: *verbose,
-			InitPkgs: initPkgs, Known: knownSet, Replay: replayModel, Params: params,
+			InitPkgs: initPkgs, Known: knownSet, Replay: replayModel, Params: params, FallbackMs: *fallback,
 		}
 		if *budget > 0 {
 			cfg.Deadline = time.Now().Add(*budget)
